@@ -16,8 +16,20 @@ def main():
         r = tlc.run('BTreeImpl', shapes.cfg(nk, nv, lf, it, invariants=INVS, props=PROPS), timeout=3000)
         ck.add_tlc(r.summary(), 'BTreeImpl keys=%d vals=%d sizes=(%d,%d)' % (nk, nv, lf, it))
         common.tlc_verdict(ck, r, ck.notes['tlc_runs'][-1]['name'])
+    #    ... and on trees whose separators are mere lower bounds (BTreeImpl!Loosen: states as older releases wrote them)
+    for (nk, nv, lf, it) in ([(5, 1, 2, 2)] if quick else [(6, 1, 2, 2), (5, 2, 2, 2), (6, 1, 3, 2), (6, 1, 2, 3)]):
+        r = tlc.run('BTreeImpl', shapes.cfg(nk, nv, lf, it, spec='SpecLooseAll', invariants=INVS, props=PROPS), timeout=3000)
+        ck.add_tlc(r.summary(), 'BTreeImpl with loose separators keys=%d vals=%d sizes=(%d,%d)' % (nk, nv, lf, it))
+        common.tlc_verdict(ck, r, ck.notes['tlc_runs'][-1]['name'])
     # 2. spec -> code: replay explored transitions into the real containers
-    dumps = []
+    dumps, ldumps = [], {'c': [], 'py': []}
+    for (nk, nv, lf, it, sets) in ([(5, 1, 2, 2, [True, False])] if quick else [(6, 1, 2, 2, [True, False]), (5, 2, 2, 2, [False])]):
+        # (on such trees the two implementations split interior nodes differently - named deviation Py_GrowSepIsMinKey,
+        #  finding D52 -, so each is replayed along its own flavour of the specification)
+        for impl, dev in (('c', ()), ('py', ('Py_GrowSepIsMinKey',))):
+            fn, payloads, summ = shapes.dump_file(nk, nv, lf, it, spec='SpecLooseAll', dev=dev)
+            ck.add_tlc(summ, 'dump with loose separators (%s flavour) keys=%d vals=%d sizes=(%d,%d)' % (impl, nk, nv, lf, it))
+            ldumps[impl].append((fn, payloads, nk, nv, lf, it, sets))
     spec = [(4, 2, 2, 2, [False]), (5, 1, 2, 2, [True]), (4, 2, 99, 2, [False, True])] if quick else \
            [(5, 2, 2, 2, [False, True]), (6, 1, 2, 2, [True]), (5, 2, 3, 2, [False]), (5, 2, 99, 2, [False, True]),
             (6, 1, 2, 3, [True])]
@@ -35,6 +47,9 @@ def main():
     fams = embed.QUICK_FAMILIES if quick else embed.FAMILIES
     plan = RP.plan_jobs(ck, dumps, fams, ('c', 'py'), ('ext',) if quick else ('mid', 'ext'),
                         1200 if quick else 20000, 400 if quick else 4000, ['observe', 'checkers'])
+    for impl in ('c', 'py'):
+        plan += RP.plan_jobs(ck, ldumps[impl], fams, (impl,), ('ext',) if quick else ('mid', 'ext'),
+                             800 if quick else 20000, 300 if quick else 4000, ['observe', 'checkers'])
     RP.run_plan(ck, plan)
     # 3. code -> spec: recorded random histories of the whole API, validated by TLC against Layer A
     hplan = []
